@@ -137,3 +137,18 @@ Proof.
     now apply filter_In in Hin.
   - intros r Hr. apply filter_In in Hr. destruct Hr as [_ Hr]. now apply negb_true_iff.
 Qed.
+
+(* ---- C09 end to end: from the supplied documents, a collection merge is the sequential
+   addition, in ascending message-ID order, of every accepted message other than the roCreate
+   to the roCreate document *)
+Theorem collection_merge_is_fold (o : oracles) ds inc rs rc others :
+  make_readers ds = inr rs -> validate (sort_readers rs) inc = inr (rc, others) ->
+  all_lib o others (rd_doc rc) = true ->
+  exists r, collection_merge o ds inc false = inr r /\
+    r_err r = None /\
+    r_st r = fold_left (fun st rd => r_st (step o st rd)) others (rd_doc rc) /\
+    r_ws r = loop_ws o others (rd_doc rc).
+Proof.
+  intros Hrs Hv Hall. unfold collection_merge. rewrite Hrs, Hv.
+  eexists. split; [reflexivity|]. exact (nonstrict_loop o others (rd_doc rc) Hall).
+Qed.
